@@ -87,6 +87,31 @@ def runHier (c : Json) : Option Json := do
     | none => Json.null
   pure (Json.arr res.toArray)
 
+def runHierOps (c : Json) : Option Json := do
+  let binds (j : Json) : Option (List (List String × Int)) := do
+    let es ← j.getArr?.toOption
+    es.toList.mapM fun e => do
+      let k ← (e.getArrVal? 0).toOption >>= jStrs?
+      let v ← (e.getArrVal? 1).toOption >>= jInt?
+      pure (k, v)
+  let entries ← (c.getObjVal? "entries").toOption >>= binds
+  let ops ← (c.getObjVal? "ops").toOption >>= fun o => o.getArr?.toOption
+  let m ← ops.toList.foldlM (init := hextend [] entries) fun (m : List (List String × Int)) op => do
+    let kind ← (op.getArrVal? 0).toOption >>= fun s => s.getStr?.toOption
+    let arg ← (op.getArrVal? 1).toOption
+    match kind with
+    | "extend" | "with" => do let b ← binds arg; pure (hextend m b)
+    | "prepend" => do let h ← jStrs? arg; pure (hprepend m h)
+    | "filter" => do let p ← jStrs? arg; pure (hfilter m p)
+    | _ => none
+  let ls ← (c.getObjVal? "lookups").toOption >>= fun o => o.getArr?.toOption
+  let lookups ← ls.toList.mapM jStrs?
+  let res := lookups.map fun p =>
+    match lookup m p with
+    | some (k, v) => Json.arr #[Json.arr (k.map Json.str).toArray, Json.num (JsonNumber.fromInt v)]
+    | none => Json.null
+  pure (Json.mkObj [("size", Json.num (JsonNumber.fromNat m.length)), ("res", Json.arr res.toArray)])
+
 def labelOfStr? : String → Option Label
   | "priv" => some .priv | "sd" => some .sd | "pup" => some .pup | "dp" => some .dp | "pubd" => some .pubd | "pub" => some .pub
   | _ => none
@@ -791,6 +816,7 @@ def handle (line : String) : Json :=
       | "dtlat" => runDtLat c
       | "injlat" => runInjLat c
       | "dpevent" => runDpEvent c
+      | "hierops" => runHierOps c
       | "dpquery" => runDpQuery ((j.getObjVal? "aux").toOption.getD Json.null)
       | "rules" => runRules ((j.getObjVal? "aux").toOption.getD Json.null)
       | _ => none
